@@ -31,7 +31,7 @@ import (
 
 type cmp struct {
 	// pairs of (original, result) lists / maps under comparison: a decoded list may contain itself
-	open    map[[2]uintptr]bool
+	open    map[[3]uintptr]bool
 	nameMap map[string]string
 	w2g     map[unsafe.Pointer]unsafe.Pointer
 	g2w     map[unsafe.Pointer]unsafe.Pointer
@@ -463,10 +463,9 @@ func (c *cmp) static(path string, wv, gv reflect.Value, strictDyn bool) error {
 		return c.static(path, wv.Elem(), gv.Elem(), strictDyn)
 	case reflect.Slice:
 		if wv.Type().Elem().Kind() != reflect.Uint8 && wv.Len() > 0 && gv.Len() > 0 {
-			if c.enter(wv.Pointer(), gv.Pointer()) {
-				return nil // this pair is already being compared further up (cyclic lists)
+			if c.enter(wv.Pointer(), gv.Pointer(), wv.Len()) {
+				return nil // this pair is already being compared further up (cyclic lists), or was compared before
 			}
-			defer c.leave(wv.Pointer(), gv.Pointer())
 		}
 		if wv.Type().Elem().Kind() == reflect.Uint8 {
 			if !bytes.Equal(wv.Bytes(), gv.Bytes()) {
@@ -487,10 +486,9 @@ func (c *cmp) static(path string, wv, gv reflect.Value, strictDyn bool) error {
 			return fail(path, "map size: want %d, got %d", wv.Len(), gv.Len())
 		}
 		if wv.Len() > 0 {
-			if c.enter(wv.Pointer(), gv.Pointer()) {
+			if c.enter(wv.Pointer(), gv.Pointer(), -1) {
 				return nil
 			}
-			defer c.leave(wv.Pointer(), gv.Pointer())
 		}
 		it := wv.MapRange()
 		for it.Next() {
@@ -566,11 +564,15 @@ func emptyString(v reflect.Value) bool {
 	return v.IsValid() && v.Kind() == reflect.String && v.Len() == 0
 }
 
-func (c *cmp) enter(a, b uintptr) bool {
+// enter reports whether the pair (a, b) of lists / maps is being compared further up
+// (cycle) or has been compared before (shared sub-structure: l1 = [l0, l0], l2 = [l1, l1], ...
+// would otherwise cost 2^depth comparisons). A pair that differed ended the comparison, so a
+// pair seen before was equal.
+func (c *cmp) enter(a, b uintptr, n int) bool {
 	if c.open == nil {
-		c.open = map[[2]uintptr]bool{}
+		c.open = map[[3]uintptr]bool{}
 	}
-	k := [2]uintptr{a, b}
+	k := [3]uintptr{a, b, uintptr(n)}
 	if c.open[k] {
 		return true
 	}
@@ -578,4 +580,4 @@ func (c *cmp) enter(a, b uintptr) bool {
 	return false
 }
 
-func (c *cmp) leave(a, b uintptr) { delete(c.open, [2]uintptr{a, b}) }
+func (c *cmp) leave(a, b uintptr, n int) {} // the pair stays marked: compared (or being compared) once
